@@ -1,10 +1,10 @@
 (* C12 -- A pooled message has one owner at a time.
-   Statements only; proofs in Pool/Proofs.v, Pool/Paths.v, Pool/BoundedProofs.v.  PARTIAL by design: the
+   Statements only; proofs in Pool/Proofs.v, Pool/Paths.v, Pool/Writer.v, Pool/Use.v, Pool/BoundedProofs.v.  PARTIAL by design: the
    theorems cover the ownership automaton, the library's paths as modelled in Pool/Model.v, every n-ary
    interleaving of them and the pool's counter; that the Go code has no OTHER path is established only by
    running the monitor on the lifecycle traces of real executions. *)
 From Coq Require Import ZArith NArith List Bool.
-From GoCoap Require Import Pool.Model Pool.Spec Pool.Proofs Pool.Writer Pool.Paths Pool.Bounded Pool.BoundedProofs.
+From GoCoap Require Import Pool.Model Pool.Spec Pool.Proofs Pool.Writer Pool.Paths Pool.Use Pool.Bounded Pool.BoundedProofs.
 Import ListNotations.
 Open Scope Z_scope.
 
@@ -161,6 +161,65 @@ Theorem C12_lib_paths_interleaved_safe : forall ps t,
 Proof. exact lib_paths_interleaved_safe. Qed.
 Print Assumptions C12_lib_paths_interleaved_safe.
 
+(* ---- accesses to a released message (Use o: an accessor of o was called / its body was read) ---- *)
+
+(* a message that is in nobody's hands (released, not yet handed out again) must not be touched: rejected by the
+   automaton and, independently, by the property text as scanned by Spec.v *)
+Theorem C12_use_after_release_rejected : forall o pre s, run_obj Live (project o pre) = inl s -> released s = true ->
+  check (pre ++ [Use o]) <> 0%N /\ c12_class (pre ++ [Use o]) <> 0%N.
+Proof. intros o pre s H Hr. split; [exact (use_after_release_rejected o pre s H Hr)|exact (use_after_release_class o pre s H Hr)]. Qed.
+Print Assumptions C12_use_after_release_rejected.
+
+(* the harness records only the accesses to released messages: the others make no difference to the verdict *)
+Theorem C12_use_not_released_irrelevant : forall a o b s1, run_obj Live (project o a) = inl s1 -> released s1 = false ->
+  (accepted (a ++ Use o :: b) <-> accepted (a ++ b)).
+Proof. exact use_not_released_irrelevant. Qed.
+Print Assumptions C12_use_not_released_irrelevant.
+
+(* udp AsyncPing with everybody who may finish it (pong / reset, expiry sweep, the cancel function), in any order,
+   any number of times: the ping message is released once and never touched afterwards ... *)
+Theorem C12_path_async_ping_fin : forall req fs,
+  accepted (path_async_ping_fin req false fs) /\ c12_class (path_async_ping_fin req false fs) = 0%N.
+Proof. intros req fs. split; [apply path_async_ping_fin_ok|apply accepted_satisfies_property, path_async_ping_fin_ok]. Qed.
+Print Assumptions C12_path_async_ping_fin.
+
+(* ... the same step by step as the harness observes it (one window per step, retransmissions included) ... *)
+Theorem C12_ping_run_accepted : forall maxrt fs, accepted (concat (ping_run maxrt false (PPending 0) 1 fs)).
+Proof. exact ping_run_accepted. Qed.
+Print Assumptions C12_ping_run_accepted.
+
+(* ... whereas a cancel function that asks the ping message for its ID is rejected in every run in which it comes
+   after another finisher, and in no other run *)
+Theorem C12_ping_late_read_rejected : forall req f fs, In FCancel fs ->
+  check (path_async_ping_fin req true (f :: fs)) <> 0%N /\ c12_class (path_async_ping_fin req true (f :: fs)) = 7%N.
+Proof. exact ping_late_read_rejected. Qed.
+Print Assumptions C12_ping_late_read_rejected.
+
+Theorem C12_ping_late_read_unnoticed : forall req f fs, ~ In FCancel fs -> accepted (path_async_ping_fin req true (f :: fs)).
+Proof. exact ping_late_read_unnoticed. Qed.
+Print Assumptions C12_ping_late_read_unnoticed.
+
+(* net/blockwise: the caller of Do gives up (and the request is released) while any number of receive paths work on
+   messages with its token.  Every access to the shared state is a step, threads are scheduled arbitrarily.  When the
+   receive paths read the caller's request only under the read lock of sendingMessagesCache, no schedule has a read
+   after the release ... *)
+Theorem C12_giveup_safe : forall app r progs sched, Forall locked_only progs ->
+  accepted (g_trace (grun app r sched (ginit progs))) /\ c12_class (g_trace (grun app r sched (ginit progs))) = 0%N.
+Proof. exact giveup_safe. Qed.
+Print Assumptions C12_giveup_safe.
+
+(* ... because the caller cannot get past its Delete while a receive path that found the entry is in its locked section ... *)
+Theorem C12_giveup_caller_waits : forall app r progs sched rd k, Forall locked_only progs ->
+  In rd (g_rs (grun app r sched (ginit progs))) -> r_pc rd = RIn true k -> g_d (grun app r sched (ginit progs)) = D0.
+Proof. exact giveup_caller_waits. Qed.
+Print Assumptions C12_giveup_caller_waits.
+
+(* ... and with the next block built outside the lock there is a schedule with a read of the released request *)
+Theorem C12_giveup_unlocked_refuted : forall app r k, (0 < k)%nat -> exists sched,
+  c12_class (g_trace (grun app r sched (ginit [handle_continue_unlocked_prog k]))) = 7%N.
+Proof. exact giveup_unlocked_refuted. Qed.
+Print Assumptions C12_giveup_unlocked_refuted.
+
 (* ---- the pool is bounded: Pool.ReleaseMessage's CAS loop and AcquireMessage's Get/Dec as atomic steps of any
    number of threads under any schedule (sync.Pool may return nil or lose objects at any time) ---- *)
 Theorem C12_pool_bounded : forall mx progs sched, 0 <= mx ->
@@ -201,3 +260,15 @@ Example C12_instance_bw :
   check (path_bw_receive (KErrLate true) true true true false [10; 11; 12; 13; 14; 15; 16]) = 0%N /\
   check (map (ren (env_f [10; 11; 12; 13; 14; 15; 16])) (wtrace 0 (bw_early_install_restart_ops true true true))) = 1%N.
 Proof. vm_compute. repeat split. Qed.
+
+(* a ping answered by the peer and cancelled afterwards: accepted; with the stale read: class 7.  The receive path of a
+   2.31 Continue (one locked read for the code, five for the next block) racing with a caller that gives up: one
+   of the schedules, accepted; with the next block built outside the lock: a schedule with class 7 *)
+Example C12_instance_use :
+  (check (path_async_ping_fin 5 false [FPong; FCancel; FExpiry]) = 0%N) /\
+  (check (path_async_ping_fin 5 true [FPong; FCancel]) = 7%N) /\
+  locked_only (handle_continue_prog 5) /\
+  (g_trace (grun true 9 [1; 1; 1; 0; 1; 1; 1; 1; 1; 0; 1; 1; 1; 0; 0; 0; 0; 0; 0]%nat (ginit [handle_continue_prog 2])) =
+    [Use 9; Use 9; Use 9; AppRel 9; Rel 9; Rec 9]) /\
+  (check (g_trace (grun true 9 [1; 1; 1; 1; 1; 1; 1; 1; 0; 0; 0; 0; 0; 1]%nat (ginit [handle_continue_unlocked_prog 2]))) = 7%N).
+Proof. split; [reflexivity|]. split; [reflexivity|]. split; [repeat constructor|]. split; vm_compute; reflexivity. Qed.
